@@ -253,6 +253,11 @@ pub struct Machine {
     pub uncertain: bool,
     pub writes_refused_after_error: u32,
     pub ended_by_failed_open: bool,
+    /// C10: capture the durable image after every durable commit / clean close (record mode only)
+    pub capture: bool,
+    pub images: Vec<(usize, &'static str, Vec<u8>)>,
+    img_durable: Vec<u8>,
+    img_applied: usize,
 }
 
 #[derive(Clone, Debug)]
@@ -346,9 +351,47 @@ impl Machine {
             uncertain: false,
             writes_refused_after_error: 0,
             ended_by_failed_open: false,
+            capture: false,
+            images: vec![],
+            img_durable: vec![],
+            img_applied: 0,
         };
         m.backend.mark(0, 0, "created");
         Ok(m)
+    }
+
+    /// bring the durable image up to the last completed sync and store a copy
+    pub fn capture_image(&mut self, kind: &'static str) {
+        if !self.capture {
+            return;
+        }
+        let g = self.backend.lock();
+        // find the last sync
+        let mut last_sync = None;
+        for i in (self.img_applied..g.log.len()).rev() {
+            if matches!(g.log[i], crate::backend::LogOp::Sync) {
+                last_sync = Some(i);
+                break;
+            }
+        }
+        if let Some(ls) = last_sync {
+            for op in &g.log[self.img_applied..=ls] {
+                match op {
+                    crate::backend::LogOp::Write { off, data } => {
+                        let end = *off as usize + data.len();
+                        if end <= self.img_durable.len() {
+                            self.img_durable[*off as usize..end].copy_from_slice(data);
+                        }
+                    }
+                    crate::backend::LogOp::SetLen(l) => self.img_durable.resize(*l as usize, 0),
+                    _ => {}
+                }
+            }
+            self.img_applied = ls + 1;
+        }
+        drop(g);
+        let idx = self.commits.len() - 1;
+        self.images.push((idx, kind, self.img_durable.clone()));
     }
 
     pub fn last(&self) -> &Arc<DbState> {
@@ -469,6 +512,7 @@ impl Machine {
         self.apply_commit_side_effects(&w);
         if w.dur == Dur::Immediate {
             self.d = self.commits.len() - 1;
+            self.capture_image(if w.quick_repair { "quick-repair commit" } else if w.two_phase { "2PC commit" } else { "1PC commit" });
         }
         self.mark_now("idle");
         self.stats.commits += 1;
@@ -1394,6 +1438,7 @@ impl Machine {
         let faulty = self.fault_mode && self.backend.lock().fault_fired;
         if !faulty {
             self.d = self.commits.len() - 1;
+            self.capture_image("clean close");
         }
         self.backend.mark(self.d, self.commits.len() - 1, "open");
         let b = self.backend.reopen_handle();
@@ -1474,6 +1519,7 @@ impl Machine {
             Ok(_) => {
                 sensure!(!persistent && !eph_valid && !readers && !eph_any, "compact-not-refused", "compact() ran although persistent savepoints={persistent} ephemeral savepoints={eph_any} readers={readers} exist");
                 self.d = self.commits.len() - 1;
+                self.capture_image("after compaction");
                 self.stats.compactions_ok += 1;
                 let len_after = self.backend.lock().live.len();
                 if all_durable && len_after > len_before {
